@@ -120,8 +120,14 @@ class JaxleySolveIndexer:
         parents_in_level: Optional[np.ndarray] = None,
         root_inds: Optional[np.ndarray] = None,
         remapped_node_indices: Optional[np.ndarray] = None,
+        ncomp_per_branch: Optional[np.ndarray] = None,
     ):
         self.cumsum_ncomp = np.asarray(cumsum_ncomp)
+        # Actual (unpadded) number of compartments of every branch. If `None`, no
+        # branch is padded.
+        if ncomp_per_branch is None:
+            ncomp_per_branch = np.diff(self.cumsum_ncomp)
+        self.ncomp_per_branch = np.asarray(ncomp_per_branch).astype(int)
 
         # Save items for easier access.
         self.branchpoint_group_inds = branchpoint_group_inds
@@ -136,12 +142,16 @@ class JaxleySolveIndexer:
 
     def last(self, branch_inds: np.ndarray) -> np.ndarray:
         """Return the indices of the last compartment of all `branch_inds`."""
+        return self.cumsum_ncomp[branch_inds] + self.ncomp_per_branch[branch_inds] - 1
+
+    def _padded_last(self, branch_inds: np.ndarray) -> np.ndarray:
+        """Return the indices of the last (possibly padded) slot of all `branch_inds`."""
         return self.cumsum_ncomp[branch_inds + 1] - 1
 
     def branch(self, branch_inds: np.ndarray) -> np.ndarray:
         """Return indices of all compartments in all `branch_inds`."""
         start_inds = self.first(branch_inds)
-        end_inds = self.last(branch_inds) + 1
+        end_inds = self._padded_last(branch_inds) + 1
         return self._consecutive_indices(start_inds, end_inds)
 
     def lower(self, branch_inds: np.ndarray) -> np.ndarray:
@@ -151,7 +161,7 @@ class JaxleySolveIndexer:
         to have as many elements as the `diagonal`. In this method, we get rid of
         this additional element."""
         start_inds = self.first(branch_inds) + 1
-        end_inds = self.last(branch_inds) + 1
+        end_inds = self._padded_last(branch_inds) + 1
         return self._consecutive_indices(start_inds, end_inds)
 
     def upper(self, branch_inds: np.ndarray) -> np.ndarray:
@@ -161,7 +171,7 @@ class JaxleySolveIndexer:
         to have as many elements as the `diagonal`. In this method, we get rid of
         this additional element."""
         start_inds = self.first(branch_inds)
-        end_inds = self.last(branch_inds)
+        end_inds = self._padded_last(branch_inds)
         return self._consecutive_indices(start_inds, end_inds)
 
     def _consecutive_indices(
